@@ -133,3 +133,78 @@ Example C14_one3d_cuts :
   /\ o_mm_read 1 2 (firstn 25 (o_enc c)) 100 = Err           (* inside a record *)
   /\ (exists v, o_mm_read 1 2 (firstn 24 (o_enc c)) 96 = Ok v /\ ov_ntimes v = 2).
 Proof. vm_compute. repeat split; try reflexivity. eexists; split; reflexivity. Qed.
+
+(* ======================================================================================================
+   CAMx TEMPERATURE and HEIGHT/PRESSURE files, Model/TempHp.v
+   ====================================================================================================== *)
+From PNC Require Import Model.TempHp Proofs.TempHpProofs.
+
+Theorem C14_temperature_reader_local : forall rows cols ws size,
+  t_mm_read rows cols (firstn (Z.to_nat (size / 4)) ws) size = t_mm_read rows cols ws size.
+Proof. exact t_mm_read_local. Qed.
+Print Assumptions C14_temperature_reader_local.
+
+(* TEMPERATURE: "every accepted prefix presents whole steps of the file" is REFUTED for the faithful reader model:
+   the prefix holding exactly the first TWO records (surface record and first layer record of step 0) of EVERY readable
+   file is accepted and presented as two time steps without layers, the layer record posing as a second surface field
+   (the for loop over the time stamps falls through with i = last index). Replays on the library: known finding
+   C14-temperature-prefix-fabricated (region 14). *)
+Theorem C14_temperature_two_record_prefix_refuted : forall c, t_wf c = true -> t_readable c = true ->
+  t_mm_read (t_ny c) (t_nx c) (firstn (Z.to_nat (8 * t_rec_words c / 4)) (t_enc c)) (8 * t_rec_words c)
+  = Ok (t_two_record_view c).
+Proof. exact t_two_record_prefix. Qed.
+Print Assumptions C14_temperature_two_record_prefix_refuted.
+
+(* the strongest true form: the accepted cuts and what is presented there, EXACTLY: that one fabricated prefix, and the
+   prefixes of k >= 2 whole steps, which present exactly the first k steps *)
+Theorem C14_temperature_accepts_iff : forall c size v, t_wf c = true -> t_readable c = true ->
+  0 <= size <= 4 * Z.of_nat (length (t_enc c)) ->
+  (t_mm_read (t_ny c) (t_nx c) (firstn (Z.to_nat (size / 4)) (t_enc c)) size = Ok v <->
+   (size = 8 * t_rec_words c /\ v = t_two_record_view c) \/
+   exists k, (2 <= k <= length (t_steps c))%nat /\ size = 4 * (Z.of_nat k * t_step_words c) /\
+             v = t_view_of (t_truncate_steps k c)).
+Proof. exact t_mm_read_accepts_iff. Qed.
+Print Assumptions C14_temperature_accepts_iff.
+
+(* the property on the exact sub-domain where it holds: every cut other than the two-record one *)
+Theorem C14_temperature_every_prefix_partial : forall c size, t_wf c = true -> t_readable c = true ->
+  0 <= size <= 4 * Z.of_nat (length (t_enc c)) -> size <> 8 * t_rec_words c ->
+  t_mm_read (t_ny c) (t_nx c) (firstn (Z.to_nat (size / 4)) (t_enc c)) size = Err \/
+  exists k, (2 <= k <= length (t_steps c))%nat /\ size = 4 * (Z.of_nat k * t_step_words c) /\
+            t_mm_read (t_ny c) (t_nx c) (firstn (Z.to_nat (size / 4)) (t_enc c)) size
+            = Ok (t_view_of (t_truncate_steps k c)).
+Proof. exact t_mm_read_prefix_partial. Qed.
+Print Assumptions C14_temperature_every_prefix_partial.
+
+(* HEIGHT/PRESSURE: full strength *)
+Theorem C14_heightpres_reader_local : forall rows cols ws size,
+  h_mm_read rows cols (firstn (Z.to_nat (size / 4)) ws) size = h_mm_read rows cols ws size.
+Proof. exact h_mm_read_local. Qed.
+Print Assumptions C14_heightpres_reader_local.
+
+Theorem C14_heightpres_every_prefix : forall c size, h_wf c = true -> h_readable c = true ->
+  0 <= size <= 4 * Z.of_nat (length (h_enc c)) ->
+  h_mm_read (h_ny c) (h_nx c) (firstn (Z.to_nat (size / 4)) (h_enc c)) size = Err \/
+  exists k, (2 <= k <= length (h_steps c))%nat /\ size = 4 * (Z.of_nat k * h_step_words c) /\
+            h_mm_read (h_ny c) (h_nx c) (firstn (Z.to_nat (size / 4)) (h_enc c)) size
+            = Ok (h_view_of (h_truncate_steps k c)).
+Proof. exact h_mm_read_prefix. Qed.
+Print Assumptions C14_heightpres_every_prefix.
+
+Theorem C14_heightpres_accepts_iff : forall c size v, h_wf c = true -> h_readable c = true ->
+  0 <= size <= 4 * Z.of_nat (length (h_enc c)) ->
+  (h_mm_read (h_ny c) (h_nx c) (firstn (Z.to_nat (size / 4)) (h_enc c)) size = Ok v <->
+   exists k, (2 <= k <= length (h_steps c))%nat /\ size = 4 * (Z.of_nat k * h_step_words c) /\
+             v = h_view_of (h_truncate_steps k c)).
+Proof. exact h_mm_read_accepts_iff. Qed.
+Print Assumptions C14_heightpres_accepts_iff.
+
+Example C14_temperature_cuts :
+  let c := {| t_nx := 2; t_ny := 1; t_nz := 2;
+     t_steps := [TStep 1120403456 4001 [1; 2] [[3; 4]; [5; 6]]; TStep 1128792064 4001 [11; 12] [[13; 14]; [15; 16]];
+                 TStep 1133903872 4001 [21; 22] [[23; 24]; [25; 26]]] |} in
+  t_wf c = true /\ t_readable c = true /\ t_rec_words c = 6 /\ t_step_words c = 18
+  /\ t_mm_read 1 2 (firstn 18 (t_enc c)) 72 = Err            (* one whole step *)
+  /\ (exists v, t_mm_read 1 2 (firstn 12 (t_enc c)) 48 = Ok v /\ tv_ntimes v = 2 /\ tv_nz v = 0 /\ tv_surf v = [[1; 2]; [3; 4]])
+  /\ (exists v, t_mm_read 1 2 (firstn 36 (t_enc c)) 144 = Ok v /\ tv_ntimes v = 2 /\ tv_nz v = 2).
+Proof. vm_compute. repeat split; try reflexivity; eexists; repeat split; reflexivity. Qed.
